@@ -3,3 +3,4 @@ import RoGen.Plugins
 import RoGen.SubjectLocks
 import RoGen.RateLimit
 import RoGen.ChanShape
+import RoGen.OpsGen
